@@ -9,6 +9,73 @@ From TLV Require Import Base.Shape Base.PyList Base.Tensor Base.BigSum Base.Ops 
      Proofs.SvdDecompProofs.
 Import ListNotations.
 
+
+(* ------------------------------------------------------------------ rotating lists (start mode of tensor_ring) *)
+Lemma firstn_app_len {A} (l1 l2 : list A) : firstn (length l1) (l1 ++ l2) = l1.
+Proof. induction l1; simpl; congruence. Qed.
+Lemma skipn_app_len {A} (l1 l2 : list A) : skipn (length l1) (l1 ++ l2) = l2.
+Proof. induction l1; simpl; congruence. Qed.
+
+Lemma rotate_seq n m : m <= n -> rotate m (seq 0 n) = seq m (n - m) ++ seq 0 m.
+Proof.
+  intros H. unfold rotate. replace n with (m + (n - m)) at 1 2 by lia. rewrite seq_app. cbn [Nat.add].
+  pose proof (seq_length m 0) as Hl.
+  rewrite <- Hl at 1. rewrite skipn_app_len. rewrite <- Hl at 3. rewrite firstn_app_len. reflexivity.
+Qed.
+
+Lemma map_nth_seq (s : list nat) : map (fun k => nth k s 0) (seq 0 (length s)) = s.
+Proof.
+  apply nth_ext with (d := 0) (d' := 0); [now rewrite map_length, seq_length|].
+  intros k Hk. rewrite map_length, seq_length in Hk.
+  rewrite (nth_map' _ _ _ 0) by (now rewrite seq_length). now rewrite seq_nth.
+Qed.
+
+Lemma permute_rotate (s : list nat) m : permute 0 (rotate m (seq 0 (length s))) s = rotate m s.
+Proof.
+  unfold permute, rotate. rewrite map_app, <- skipn_map, <- firstn_map, map_nth_seq. reflexivity.
+Qed.
+
+Lemma index_of_seq_in a : forall len s l2, s <= a -> a < s + len -> index_of a (seq s len ++ l2) = a - s.
+Proof.
+  induction len; intros s l2 H1 H2; [lia|]. cbn [seq app index_of].
+  destruct (Nat.eqb_spec s a); [lia|]. rewrite IHlen by lia. lia.
+Qed.
+Lemma index_of_seq_out a : forall len s l2, (a < s \/ s + len <= a) ->
+  index_of a (seq s len ++ l2) = len + index_of a l2.
+Proof.
+  induction len; intros s l2 H; [reflexivity|]. cbn [seq app index_of].
+  destruct (Nat.eqb_spec s a); [lia|]. rewrite IHlen by lia. lia.
+Qed.
+
+Lemma scatter_rotate (idx : list nat) m : m < length idx ->
+  scatter (rotate m (seq 0 (length idx))) (rotate m idx) = idx.
+Proof.
+  intros Hm. set (n := length idx). unfold scatter.
+  assert (Hlp : length (rotate m (seq 0 n)) = n).
+  { unfold rotate. rewrite app_length, skipn_length, firstn_length, seq_length. lia. }
+  rewrite Hlp. rewrite rotate_seq by lia.
+  apply nth_ext with (d := 0) (d' := 0); [now rewrite map_length, seq_length|].
+  intros a Ha. rewrite map_length, seq_length in Ha.
+  rewrite (nth_map' _ _ _ 0) by (now rewrite seq_length). rewrite seq_nth by exact Ha. cbn [Nat.add].
+  unfold rotate.
+  destruct (Nat.lt_ge_cases a m) as [Hlt|Hge].
+  - rewrite index_of_seq_out by lia.
+    rewrite <- (app_nil_r (seq 0 m)). rewrite index_of_seq_in by lia.
+    rewrite app_nth2 by (rewrite skipn_length; fold n; lia).
+    rewrite skipn_length. fold n. replace (n - m + (a - 0) - (n - m)) with a by lia.
+    apply nth_firstn'. exact Hlt.
+  - rewrite index_of_seq_in by lia.
+    rewrite app_nth1 by (rewrite skipn_length; fold n; lia).
+    rewrite nth_skipn'. f_equal. lia.
+Qed.
+
+Lemma inb_firstn m : forall s idx, inb s idx -> inb (firstn m s) (firstn m idx).
+Proof. induction m; intros [|x s] [|i idx] H; simpl in *; try tauto. destruct H. split; auto. Qed.
+Lemma inb_skipn m : forall s idx, inb s idx -> inb (skipn m s) (skipn m idx).
+Proof. induction m; intros [|x s] [|i idx] H; simpl in *; try tauto. destruct H. auto. Qed.
+Lemma inb_rotate m s idx : inb s idx -> inb (rotate m s) (rotate m idx).
+Proof. intros H. unfold rotate. apply inb_app; [now apply inb_skipn | now apply inb_firstn]. Qed.
+
 Section RingTR.
 Context {F : Type} (Op : fops F).
 Hypothesis Rth : ring_theory (f0 Op) (f1 Op) (fadd Op) (fmul Op) (fsub Op) (fopp Op) (@eq F).
@@ -106,6 +173,146 @@ Proof.
   cbn [rbind]. destruct (negb (0 <? ndim X)); [discriminate|]. cbn [Nat.eqb].
   intros Hok Hrun. destruct (tr_core Op svd X rk) as [fs|] eqn:E; [|discriminate].
   cbn [rbind] in Hrun. injection Hrun as <-. exact (tr_core_exact X rk fs Hok E).
+Qed.
+
+(* ------------------------------------------------------------------ bond bookkeeping of the computed cores *)
+(* consecutive cores share their bond dimension; l = left bond of the first, r = right bond of the last *)
+Fixpoint bonds (l : nat) (cores : list (tensor F)) (r : nat) : Prop :=
+  match cores with
+  | [] => l = r
+  | G :: cs => nth 0 (shape G) 0 = l /\ bonds (nth 2 (shape G) 0) cs r
+  end.
+
+Lemma bonds_app l A : forall B r, bonds l (A ++ B) r -> exists m, bonds l A m /\ bonds m B r.
+Proof.
+  revert l. induction A as [|G A IH]; intros l B r H.
+  - exists l. split; [reflexivity | exact H].
+  - cbn [app bonds] in *. destruct H as [H1 H2]. destruct (IH _ _ _ H2) as (m & Ha & Hb).
+    exists m. repeat split; assumption.
+Qed.
+
+Lemma chain_loop_bonds : forall sizes k ranks rk r0 W cores,
+  chain_loop Op svd k sizes ranks rk r0 W = Ok cores -> bonds rk cores r0 /\ length cores = length sizes.
+Proof.
+  induction sizes as [|n rest IH]; intros k ranks rk r0 W cores H; [discriminate|].
+  destruct rest as [|n2 rest2].
+  - simpl in H. injection H as <-. simpl. auto.
+  - set (rest := n2 :: rest2) in *. cbn [chain_loop] in H. fold rest in H. cbv zeta in H.
+    destruct (fact_shapes_ok _ _ _ _); [|discriminate].
+    destruct (svd_interface Op _ _) as [[U Sv] V].
+    destruct (chain_loop Op svd (S k) rest (tl ranks) _ r0 _) as [cs|] eqn:E; [|discriminate].
+    cbn [rbind] in H. injection H as <-. destruct (IH _ _ _ _ _ _ E) as [Hb Hl].
+    cbn [bonds length shape reshape nth]. rewrite Hl. auto.
+Qed.
+
+Lemma tr_core_bonds Xp rk fs : tr_core Op svd Xp rk = Ok fs ->
+  bonds (nth 0 rk 0) fs (nth 0 rk 0) /\ length fs = S (length (tl (shape Xp))).
+Proof.
+  unfold tr_core. cbv zeta. destruct (_ <? _); [discriminate|].
+  destruct (fact_shapes_ok _ _ _ _); [|discriminate].
+  destruct (svd_interface Op _ _) as [[U Sv] V].
+  destruct (chain_loop Op svd 1 _ _ _ _ _) as [cs|] eqn:E; [|discriminate].
+  cbn [rbind]. intros H. injection H as <-. destruct (chain_loop_bonds _ _ _ _ _ _ _ E) as [Hb Hl].
+  cbn [bonds length]. rewrite Hl. split; [|reflexivity]. split; [reflexivity|]. exact Hb.
+Qed.
+
+(* the product of a concatenated chain is the product of the two partial products *)
+Lemma chain_app A : forall l m B a iA iB c, bonds l A m -> a < l -> length iA = length A ->
+  chain Op (A ++ B) a (iA ++ iB) c = fsum m (fun b => chain Op A a iA b *f chain Op B b iB c).
+Proof.
+  induction A as [|G A IH]; intros l m B a iA iB c Hb Ha Hlen.
+  - destruct iA; [|discriminate]. cbn [bonds] in Hb. subst m. cbn [app].
+    rewrite (fsumn_single Op Rth l a).
+    + rewrite (chain_nil Op), Nat.eqb_refl. ring.
+    + exact Ha.
+    + intros b Hb Hne. rewrite (chain_nil Op). destruct (Nat.eqb_spec a b); [exfalso; auto | ring].
+  - destruct iA as [|i iA]; [discriminate|]. cbn [bonds] in Hb. destruct Hb as [Hl Hb].
+    cbn [app]. rewrite (chain_cons Op).
+    transitivity (fsum (nth 2 (shape G) 0) (fun b1 => fsum m (fun b =>
+       gg G [a; i; b1] *f chain Op A b1 iA b *f chain Op B b iB c))).
+    + apply fsumn_ext. intros b1 Hb1.
+      rewrite (IH _ m B b1 iA iB c Hb Hb1) by (simpl in Hlen; lia).
+      rewrite <- (fsumn_scale_l Op Rth). apply fsumn_ext. intros b _. ring.
+    + rewrite (fsumn_exchange Op Rth). apply fsumn_ext. intros b _.
+      rewrite (chain_cons Op). rewrite <- (fsumn_scale_r Op Rth). reflexivity.
+Qed.
+
+(* cyclicity of the trace: rotating the ring of cores together with the index does not change the entry *)
+Theorem tr_entry_rotate A B l m iA iB : A <> [] -> B <> [] -> bonds l A m -> bonds m B l ->
+  length iA = length A -> length iB = length B ->
+  tr_entry Op (B ++ A) (iB ++ iA) = tr_entry Op (A ++ B) (iA ++ iB).
+Proof.
+  intros HA HB Hba Hbb HlA HlB. unfold tr_entry.
+  destruct A as [|GA A']; [contradiction|]. destruct B as [|GB B']; [contradiction|].
+  cbn [app hd].
+  assert (HlGA : nth 0 (shape GA) 0 = l) by (cbn [bonds] in Hba; tauto).
+  assert (HlGB : nth 0 (shape GB) 0 = m) by (cbn [bonds] in Hbb; tauto).
+  rewrite HlGA, HlGB.
+  change (GB :: B' ++ GA :: A') with ((GB :: B') ++ (GA :: A')).
+  change (GA :: A' ++ GB :: B') with ((GA :: A') ++ (GB :: B')).
+  transitivity (fsum m (fun b => fsum l (fun a => chain Op (GB :: B') b iB a *f chain Op (GA :: A') a iA b))).
+  - apply fsumn_ext. intros b Hb. apply (chain_app _ m l); assumption.
+  - rewrite (fsumn_exchange Op Rth). apply fsumn_ext. intros a Ha.
+    rewrite (chain_app _ l m _ a iA iB a Hba Ha HlA). apply fsumn_ext. intros b _. ring.
+Qed.
+
+(* ------------------------------------------------------------------ tensor_ring, every start mode *)
+Definition tr_ok (X : tensor F) (rank : rank_spec) (mode : nat) : Prop :=
+  let n := ndim X in
+  match validate_tr_rank n rank with
+  | Ok rk0 =>
+    tr_core_ok (if Nat.eqb mode 0 then X else transpose fz (rotate mode (seq 0 n)) X)
+               (if Nat.eqb mode 0 then rk0 else tr_rotate_rank n mode rk0)
+  | Err => True
+  end.
+
+Theorem tensor_ring_exact X rank mode cores :
+  tr_ok X rank mode -> tensor_ring Op svd X rank mode = Ok cores ->
+  forall idx, inb (shape X) idx -> tr_entry Op cores idx = gg X idx.
+Proof.
+  unfold tr_ok, tensor_ring. cbv zeta. set (n := ndim X).
+  destruct (validate_tr_rank n rank) as [rk0|]; [|discriminate]. cbn [rbind].
+  destruct (mode <? n) eqn:Emn; [|discriminate]. cbn [negb]. apply Nat.ltb_lt in Emn.
+  destruct (Nat.eqb_spec mode 0) as [->|Hm0].
+  - intros Hok Hrun. destruct (tr_core Op svd X rk0) as [fs|] eqn:E; [|discriminate].
+    cbn [rbind] in Hrun. injection Hrun as <-. exact (tr_core_exact X rk0 fs Hok E).
+  - set (Xp := transpose fz (rotate mode (seq 0 n)) X). set (rk := tr_rotate_rank n mode rk0).
+    intros Hok Hrun idx Hidx.
+    destruct (tr_core Op svd Xp rk) as [fs|] eqn:E; [|discriminate].
+    cbn [rbind] in Hrun. injection Hrun as <-.
+    pose proof (tr_core_exact Xp rk fs Hok E) as Hex.
+    destruct (tr_core_bonds Xp rk fs E) as [Hb Hlen].
+    assert (HsXp : shape Xp = rotate mode (shape X)).
+    { unfold Xp, transpose. cbn [shape tabulate]. unfold n, ndim. apply permute_rotate. }
+    assert (Hlfs : length fs = n).
+    { rewrite Hlen, HsXp. unfold rotate. destruct (skipn mode (shape X) ++ firstn mode (shape X)) eqn:Er.
+      - apply (f_equal (@length nat)) in Er. rewrite app_length, skipn_length, firstn_length in Er.
+        cbn [length] in Er. unfold n, ndim in *. lia.
+      - apply (f_equal (@length nat)) in Er. rewrite app_length, skipn_length, firstn_length in Er.
+        cbn [length tl] in *. unfold n, ndim in *. lia. }
+    pose proof (inb_length _ _ Hidx) as Hli. fold (ndim X) in Hli. fold n in Hli.
+    set (A := firstn (n - mode) fs). set (B := lastn mode fs).
+    assert (EB : B = skipn (n - mode) fs) by (unfold B, lastn; rewrite Hlfs; reflexivity).
+    assert (Efs : fs = A ++ B) by (rewrite EB; unfold A; symmetry; apply firstn_skipn).
+    rewrite Efs in Hb. destruct (bonds_app _ _ _ _ Hb) as (m & HbA & HbB).
+    assert (HlA : length A = n - mode) by (unfold A; rewrite firstn_length; lia).
+    assert (HlB : length B = mode) by (rewrite EB, skipn_length; lia).
+    set (iB := firstn mode idx). set (iA := skipn mode idx).
+    assert (Eidx : idx = iB ++ iA) by (symmetry; apply firstn_skipn).
+    rewrite Eidx at 1.
+    rewrite (tr_entry_rotate A B (nth 0 rk 0) m iA iB).
+    + rewrite <- Efs. change (iA ++ iB) with (rotate mode idx).
+      rewrite Hex by (rewrite HsXp; apply inb_rotate; exact Hidx).
+      unfold Xp, g, transpose. rewrite get_tabulate.
+      * f_equal. rewrite <- Hli. apply scatter_rotate. lia.
+      * fold (ndim X). fold n. change (permute 0 (rotate mode (seq 0 n)) (shape X)) with (shape Xp).
+        rewrite HsXp. apply inb_rotate. exact Hidx.
+    + intros EA. rewrite EA in HlA. cbn [length] in HlA. lia.
+    + intros EB'. rewrite EB' in HlB. cbn [length] in HlB. lia.
+    + exact HbA.
+    + exact HbB.
+    + unfold iA. rewrite skipn_length. lia.
+    + unfold iB. rewrite firstn_length. lia.
 Qed.
 
 End RingTR.
